@@ -597,3 +597,146 @@ package saml
 //@ assert@store[C13] RawQuery #1 (stored string) uses rv *url.URL, requestStr strings.Builder signature_appended:
 //@    len(sp.SignatureMethod) > 0 ==> strings.HasPrefix(stored,
 //@      redirectQuery(rv.RawQuery, requestStr.String(), relayState) + "&SigAlg=" + url.QueryEscape(sp.SignatureMethod) + "&Signature=")
+
+//@ -- logout redirects: the relay state, when given, is set as the RelayState parameter on every path, unmodified
+//@ contract (*LogoutRequest).Redirect
+//@ assert@call[C12] Encode #1 (q url.Values) relay_state_forwarded:
+//@    relayState != "" ==> ValuesHas(q, "RelayState", relayState)
+//@ contract (*LogoutResponse).Redirect
+//@ assert@call[C12] Encode #1 (q url.Values) relay_state_forwarded:
+//@    relayState != "" ==> ValuesHas(q, "RelayState", relayState)
+
+//@ -- POST forms: rendered by html/template from a constant template; destination, encoded message and relay state are data
+//@ go func postData(d interface{}) (string, string, string) {
+//@    x, _ := d.(struct { URL string; SAMLRequest string; RelayState string })
+//@    return x.URL, x.SAMLRequest, x.RelayState }
+//@ go func postDataURL(d interface{}) string { u, _, _ := postData(d); return u }
+//@ go func postDataRelay(d interface{}) string { _, _, r := postData(d); return r }
+//@ go func isRequestPostData(d interface{}) bool { _, ok := d.(struct { URL string; SAMLRequest string; RelayState string }); return ok }
+//@ go func isResponsePostData(d interface{}) bool { _, ok := d.(struct { URL string; SAMLResponse string; RelayState string }); return ok }
+//@ go func responsePostURL(d interface{}) string { x, _ := d.(struct { URL string; SAMLResponse string; RelayState string }); return x.URL }
+//@ go func responsePostRelay(d interface{}) string { x, _ := d.(struct { URL string; SAMLResponse string; RelayState string }); return x.RelayState }
+
+//@ contract (*AuthnRequest).Post
+//@ assert@call[C12,C14] (*html/template.Template).Execute #1 (t *template.Template, out io.Writer, data interface{}) form_data:
+//@    isRequestPostData(data) && postDataURL(data) == r.Destination && postDataRelay(data) == relayState
+//@ contract (*LogoutRequest).Post
+//@ assert@call[C12,C14] (*html/template.Template).Execute #1 (t *template.Template, out io.Writer, data interface{}) form_data:
+//@    isRequestPostData(data) && postDataURL(data) == r.Destination && postDataRelay(data) == relayState
+//@ contract (*LogoutResponse).Post
+//@ assert@call[C12,C14] (*html/template.Template).Execute #1 (t *template.Template, out io.Writer, data interface{}) form_data:
+//@    isResponsePostData(data) && responsePostURL(data) == r.Destination && responsePostRelay(data) == relayState
+
+//@ -- message construction: fresh IDs from at least 128 random bits, configured issuer / destination / ACS URL / policy
+//@ go func idArgOK(a []interface{}) bool { if len(a) != 1 { return false }; b, ok := a[0].([]byte); return ok && len(b)*8 >= 128 }
+//@ go func spIssuer(sp *ServiceProvider) string { return firstSet(sp.EntityID, sp.MetadataURL.String()) }
+
+//@ contract (*ServiceProvider).nameIDFormat
+//@ ensures[C12] table: (sp.AuthnNameIDFormat == "" ==> result == string(TransientNameIDFormat)) &&
+//@    (sp.AuthnNameIDFormat == UnspecifiedNameIDFormat ==> result == "") &&
+//@    (sp.AuthnNameIDFormat != "" && sp.AuthnNameIDFormat != UnspecifiedNameIDFormat ==> result == string(sp.AuthnNameIDFormat))
+
+//@ contract (*ServiceProvider).MakeAuthenticationRequest
+//@ requires[cfg] cert: len(sp.SignatureMethod) == 0 || sp.Certificate != nil
+//@ ensures[C12,C09] nil_iff_err: (result == nil) == (err != nil)
+//@ assert@call[C12] Sprintf #1 (format string, a []interface{}) fresh_id: format == "id-%x" && idArgOK(a)
+//@ ensures[C12] fields: err == nil ==> result.Destination == idpURL && result.AssertionConsumerServiceURL == sp.AcsURL.String() &&
+//@    result.ProtocolBinding == resultBinding && result.Version == "2.0" && result.Issuer != nil && result.Issuer.Value == spIssuer(sp) &&
+//@    result.NameIDPolicy != nil && result.NameIDPolicy.Format != nil && result.ForceAuthn == sp.ForceAuthn &&
+//@    result.RequestedAuthnContext == sp.RequestedAuthnContext && ns(result.IssueInstant) == ns(TimeNow())
+//@ -- C13: when signing is configured, a POST-binding request is signed or the call fails
+//@ ensures[C13] signed: err == nil && len(sp.SignatureMethod) > 0 && binding == HTTPPostBinding ==> result.Signature != nil
+
+//@ contract (*ServiceProvider).MakeLogoutRequest
+//@ requires[cfg] md: sp.IDPMetadata != nil
+//@ requires[cfg] cert: len(sp.SignatureMethod) == 0 || sp.Certificate != nil
+//@ ensures[C12,C09] nil_iff_err: (result == nil) == (err != nil)
+//@ assert@call[C12] Sprintf #1 (format string, a []interface{}) fresh_id: format == "id-%x" && idArgOK(a)
+//@ ensures[C12] fields: err == nil ==> result.Destination == idpURL && result.Version == "2.0" && result.Issuer != nil &&
+//@    result.Issuer.Value == spIssuer(sp) && result.NameID != nil && result.NameID.Value == nameID && ns(result.IssueInstant) == ns(TimeNow())
+//@ ensures[C13] signed: err == nil && sp.SignatureMethod != "" ==> result.Signature != nil
+
+//@ contract (*ServiceProvider).MakeLogoutResponse
+//@ requires[cfg] cert: len(sp.SignatureMethod) == 0 || sp.Certificate != nil
+//@ ensures[C12,C09] nil_iff_err: (result == nil) == (err != nil)
+//@ assert@call[C12] Sprintf #1 (format string, a []interface{}) fresh_id: format == "id-%x" && idArgOK(a)
+//@ ensures[C12] fields: err == nil ==> result.Destination == idpURL && result.InResponseTo == logoutRequestID && result.Version == "2.0" &&
+//@    result.Issuer != nil && result.Issuer.Value == spIssuer(sp) && result.Status.StatusCode.Value == StatusSuccess
+//@ ensures[C13] signed: err == nil && sp.SignatureMethod != "" ==> result.Signature != nil
+
+//@ contract (*ServiceProvider).MakeArtifactResolveRequest
+//@ requires[cfg] cert: len(sp.SignatureMethod) == 0 || sp.Certificate != nil
+//@ assert@call[C12] Sprintf #1 (format string, a []interface{}) fresh_id: format == "id-%x" && idArgOK(a)
+//@ ensures[C12] fields: err == nil ==> result.Artifact == artifactID && result.Version == "2.0" && result.Issuer != nil && result.Issuer.Value == spIssuer(sp)
+//@ ensures[C13] signed: err == nil && len(sp.SignatureMethod) > 0 ==> result.Signature != nil
+
+//@ -- C13: method / key-type consistency, or an error
+//@ go func isRSAMethod(m string) bool { return m == dsig.RSASHA1SignatureMethod || m == dsig.RSASHA256SignatureMethod || m == dsig.RSASHA384SignatureMethod || m == dsig.RSASHA512SignatureMethod }
+//@ go func isECDSAMethod(m string) bool { return m == dsig.ECDSASHA1SignatureMethod || m == dsig.ECDSASHA256SignatureMethod || m == dsig.ECDSASHA384SignatureMethod || m == dsig.ECDSASHA512SignatureMethod }
+//@ go func isRSAKey(k interface{}) bool { _, ok := k.(*rsa.PrivateKey); return ok }
+//@ go func isECDSAKey(k interface{}) bool { _, ok := k.(*ecdsa.PrivateKey); return ok }
+//@ import rsa "crypto/rsa"
+//@ import ecdsa "crypto/ecdsa"
+//@ contract GetSigningContext
+//@ requires[cfg] sp: sp != nil && sp.Certificate != nil
+//@ ensures[C13,C09] nil_iff_err: (result == nil) == (err != nil)
+//@ ensures[C13] consistent: err == nil ==> (isRSAMethod(sp.SignatureMethod) && isRSAKey(sp.Key)) || (isECDSAMethod(sp.SignatureMethod) && isECDSAKey(sp.Key))
+//@ ensures[C13] method_applied: err == nil ==> CtxMethod(result) == sp.SignatureMethod
+
+//@ -- every Sign* helper signs the element built from the message and stores the signature the library returned (or fails)
+//@ contract (*AuthnRequest).Element
+//@ trusted
+//@ ensures[C13] nonnil: result != nil
+//@ records built: ElementOfAuthnRequest(r, result)
+//@ ghost func ElementOfAuthnRequest(r *AuthnRequest, el *etree.Element) bool
+//@ contract (*LogoutRequest).Element
+//@ trusted
+//@ ensures[C13] nonnil: result != nil
+//@ records built: ElementOfLogoutRequest(r, result)
+//@ ghost func ElementOfLogoutRequest(r *LogoutRequest, el *etree.Element) bool
+//@ contract (*LogoutResponse).Element
+//@ trusted
+//@ ensures[C13] nonnil: result != nil
+//@ records built: ElementOfLogoutResponse(r, result)
+//@ ghost func ElementOfLogoutResponse(r *LogoutResponse, el *etree.Element) bool
+//@ contract (*ArtifactResolve).Element
+//@ trusted
+//@ ensures[C13] nonnil: result != nil
+//@ records built: ElementOfArtifactResolve(r, result)
+//@ ghost func ElementOfArtifactResolve(r *ArtifactResolve, el *etree.Element) bool
+
+//@ contract (*ServiceProvider).SignAuthnRequest
+//@ requires[cfg] a: req != nil && sp.Certificate != nil
+//@ assert@call[C13] SignEnveloped #1 (ctx *dsig.SigningContext, el *etree.Element) signs_message: ElementOfAuthnRequest(req, el) && CtxMethod(ctx) == sp.SignatureMethod
+//@ ensures[C13] stored: err == nil ==> req.Signature != nil
+//@ contract (*ServiceProvider).SignLogoutRequest
+//@ requires[cfg] a: req != nil && sp.Certificate != nil
+//@ assert@call[C13] SignEnveloped #1 (ctx *dsig.SigningContext, el *etree.Element) signs_message: ElementOfLogoutRequest(req, el) && CtxMethod(ctx) == sp.SignatureMethod
+//@ ensures[C13] stored: err == nil ==> req.Signature != nil
+//@ contract (*ServiceProvider).SignLogoutResponse
+//@ requires[cfg] a: resp != nil && sp.Certificate != nil
+//@ assert@call[C13] SignEnveloped #1 (ctx *dsig.SigningContext, el *etree.Element) signs_message: ElementOfLogoutResponse(resp, el) && CtxMethod(ctx) == sp.SignatureMethod
+//@ ensures[C13] stored: err == nil ==> resp.Signature != nil
+//@ contract (*ServiceProvider).SignArtifactResolve
+//@ requires[cfg] a: req != nil && sp.Certificate != nil
+//@ assert@call[C13] SignEnveloped #1 (ctx *dsig.SigningContext, el *etree.Element) signs_message: ElementOfArtifactResolve(req, el) && CtxMethod(ctx) == sp.SignatureMethod
+//@ ensures[C13] stored: err == nil ==> req.Signature != nil
+
+//@ -- C13: the published metadata advertises the signing certificate exactly when request signing is configured
+//@ go func certsOK(cs []*x509.Certificate) bool { return forall(0, len(cs), func(k int) bool { return cs[k] != nil }) }
+//@ contract (*ServiceProvider).Metadata
+//@ requires[cfg] chain: certsOK(sp.Intermediates)
+//@ ensures[C13,C12] shape: result != nil && len(result.SPSSODescriptors) == 1 && result.EntityID == spIssuer(sp)
+//@ ensures[C13] requests_signed: result.SPSSODescriptors[0].AuthnRequestsSigned != nil &&
+//@    *result.SPSSODescriptors[0].AuthnRequestsSigned == (len(sp.SignatureMethod) > 0)
+//@ ensures[C13] signing_descriptor: sp.Certificate != nil && len(sp.SignatureMethod) > 0 ==>
+//@    len(result.SPSSODescriptors[0].KeyDescriptors) == 2 && result.SPSSODescriptors[0].KeyDescriptors[1].Use == "signing" &&
+//@    len(result.SPSSODescriptors[0].KeyDescriptors[1].KeyInfo.X509Data.X509Certificates) == 1 &&
+//@    result.SPSSODescriptors[0].KeyDescriptors[1].KeyInfo.X509Data.X509Certificates[0].Data ==
+//@      result.SPSSODescriptors[0].KeyDescriptors[0].KeyInfo.X509Data.X509Certificates[0].Data
+//@ ensures[C13] acs: len(result.SPSSODescriptors[0].AssertionConsumerServices) == 2 &&
+//@    result.SPSSODescriptors[0].AssertionConsumerServices[0].Location == sp.AcsURL.String() &&
+//@    result.SPSSODescriptors[0].AssertionConsumerServices[0].Binding == HTTPPostBinding
+
+//@ contract (*ServiceProvider).MakeLogoutRequest
+//@ requires[cfg] chain: certsOK(sp.Intermediates)
